@@ -454,7 +454,11 @@ func addCase(w *lib.Writer, j Job, r Result) {
 			for i, d := range r.Iso.Conc {
 				conc[i] = coqDigest(d)
 			}
-			c.Coq = "CIso " + coqDigest(r.Iso.Seq) + " " + lib.CoqList(conc) + " " + coqDigest(r.Iso.H0) + " " + coqDigest(r.Iso.H1)
+			exp := make([]string, len(r.Iso.Exp))
+			for i, d := range r.Iso.Exp {
+				exp[i] = coqDigest(d)
+			}
+			c.Coq = "CIso " + lib.CoqList(exp) + " " + lib.CoqList(conc) + " " + coqDigest(r.Iso.H0) + " " + coqDigest(r.Iso.H1)
 			c.Nontrivial = len(conc) >= 2
 			w.Add(c)
 			return
